@@ -25,6 +25,18 @@ def gen_cases(ctx):
             c = br.Case(); c.files = [('f', [('seg', 300000, 9)]), ('g', [('seg', 5000, 8)])]; c.bsize = 1 << 20; c.no_progress = nop; c.driver = drv; c.workers = 2
             c.reflink = 'never'; c.prior = 'absent'; c.plan = ['clamp copy_file_range D/f * 1 100000']; c.extra = []; c.tag = 'corpus-one-request-short'
             cases.append(c)
+    # corpus: copy_file_range refused (another file-system type) AND one write of the user-space loop is short: the rest of the
+    # buffer must still be written, at the right offset
+    for drv in ('parfile',):          # (the block driver's positional write treats a short count as an error: C05 short_pwrite_fails)
+        for nth in (1, 3):
+            c = br.Case(); c.files = [('f', [('seg', 300000, 11)])]; c.bsize = 65536; c.no_progress = False; c.driver = drv; c.workers = 2
+            c.reflink = 'never'; c.prior = 'absent'; c.extra = []; c.tag = 'corpus-fallback-short-write'
+            c.plan = [f'fail copy_file_range * * {scen.ERRNO["EXDEV"]}', f'clamp write D/f * {nth} 1000']
+            cases.append(c)
+    # corpus: more extents than 64 pages of the extent map hold (> 2048): data beyond must still arrive
+    c = br.Case(); c.files = [('frag', sum(([('seg', 4096, 1 + q % 250), ('hole', 4096)] for q in range(2100)), []))]; c.bsize = MB; c.no_progress = False
+    c.driver = 'parblock'; c.workers = 4; c.reflink = 'never'; c.prior = 'absent'; c.plan = []; c.extra = []; c.tag = 'corpus-over-2048-extents'
+    cases.append(c)
     for i in range(n):
         c = br.Case()
         b = rng.choice([1, 2, 7, 4096, 65536, MB, 'nop'])
